@@ -216,13 +216,51 @@ def dsge_sharing(h: Harness):
         h.count("dsge-sharing-histories" + ("" if ok else ":violated"))
 
 
+def parallel_evaluator_steps(h: Harness):
+    """the steps evaluate what they are given with the evaluator they are handed: with the PARALLEL evaluator and a pool that
+    is only partly evaluated (survivors + newcomers, in several layouts), every individual that already carried a fitness
+    must carry the same one afterwards"""
+    import pargrammar
+    from geneticengine.evaluation.parallel import ParallelEvaluator
+    from linear import safe
+    rng = h.rng
+    _, b = pargrammar.built()
+    g = pargrammar.grammar()
+    layouts = [("survivors-then-newcomers", lambda n, j: j < n // 2), ("interleaved", lambda n, j: j % 2 == 0),
+               ("newcomers-then-survivors", lambda n, j: j >= n // 2)]
+    steps = [("elitism", lambda: ElitismStep()), ("tournament", lambda: TournamentSelection(3)),
+             ("default", default_generic_programming_step)]
+    for (lname, pre), (sname, mk) in zip(layouts, steps):
+        seedv = rng.randrange(10**6)
+        r = NativeRandomSource(seedv)
+        rep = TreeBasedRepresentation(g, synth.make_decider("grow", 4, r, g))
+        problem = SingleObjectiveProblem(pargrammar.ff_plain, minimize=rng.random() < 0.5)
+        pool = [Individual(rep.create_genotype(r), rep) for _ in range(8)]
+        ev = ParallelEvaluator()
+        safe(lambda: ev.evaluate(problem, [i for j, i in enumerate(pool) if pre(len(pool), j)]))
+        w = Watch(h, b, problem, False, "tree:")
+        w.add(pool)
+        st, out = safe(lambda: list(mk().apply(problem, ev, rep, r, list(pool), 6, 1)))
+        h.count(f"parallel-evaluator-step:{sname}:{lname}:{st}")
+        h.seen(f"parallel-step:{seedv}:{sname}:{lname}", nontrivial=st == "ok")
+        w.verify(f"step[{sname}]", f"{sname}.apply with the ParallelEvaluator on a partly evaluated pool ({lname})", ["pargrammar", seedv, sname, lname])
+
+
 def run(h: Harness):
     from geneticengine.evaluation.tracker import SingleObjectiveProgressTracker
     from linear import safe
+    from props import c10
     rng = h.rng
+    parallel_evaluator_steps(h)
     dsge_sharing(h)
     for gi in range(h.n(14, 160)):
-        spec = gram.productive_spec(rng, max_classes=rng.choice([3, 4, 6]), opts={"float": False})
+        if gi % 4 == 1:
+            # a production that can fail (SynthesisException -> the next alternative is tried): creation backtracks inside
+            # mutation / crossover, in the synthesis context of the node being replaced
+            spec = c10.backtracking_spec(rng)
+            h.count("backtracking-grammar")
+        else:
+            spec = gram.productive_spec(rng, max_classes=rng.choice([3, 4, 6]), opts={"float": False})
         b = gram.build(spec)
         try:
             g = b.extract()
